@@ -98,6 +98,19 @@ func identCases() []identCase {
 				}
 			}
 		}
+		// the activity properties under EVERY vocabulary name of the transitive activity kind (a dispatcher keyed on a table of
+		// names may treat one name differently); the statement speaks of transitive activities only
+		if k.Fam == "activity" {
+			for _, typ := range k.Types {
+				for _, term := range []string{"actor", "object", "target", "result", "origin", "instrument"} {
+					kf, ok := k.FieldByTerm(term)
+					if !ok {
+						continue
+					}
+					out = append(out, identCase{Kind: k, Type: typ, What: "field", Field: kf, Shape: "iri"})
+				}
+			}
+		}
 	}
 	return out
 }
@@ -187,7 +200,7 @@ func init() {
 	Register(&Prop{
 		ID: "C09",
 		Rule: "laws as oracles: (R) ItemsEqual(x,x) for every exhaustive single-field value (all 14 kinds incl. links, pointer and value forms), top-level item lists and IRI lists, and seeded random nested values; (H) ids that differ only in host across 17 host pairs (IPv6 literals, IPv4, ports, subdomains, punycode) in IRI/object/actor forms; (L) lists of 7-17 members holding id-less objects and links that differ in one member; (N) the full nil-like x nil-like and nil-like x non-nil matrix in both argument orders; " +
-			"(I) for every object kind x {specific, generic type name} x {id host, id path, id query, type, each core property except mediaType/source in several shapes, and for transitive activities actor/object/target/result/origin/instrument}: a copy that differs in exactly that one thing must be unequal in both orders (evaluated only when the unmodified copy compares equal); (I in context) the same with one more property set identically on both sides, for every property of the kind in its structural shapes (IRI, object, link, item list, IRI list, 9-member list, empty list, 1/2/0 language values); (P) ids on one host whose paths differ around percent-escaped reserved characters, prefixes, segments and 300-byte paths; distinct = law + case fingerprint; non-trivial = every case with a non-nil item",
+			"(I) for every object kind x {specific, generic type name} x {id host, id path, id query, type, each core property except mediaType/source in several shapes, and for transitive activities actor/object/target/result/origin/instrument}: a copy that differs in exactly that one thing must be unequal in both orders (evaluated only when the unmodified copy compares equal); (I in context) the same with one more property set identically on both sides, for every property of the kind in its structural shapes (IRI, object, link, item list, IRI list, 9-member list, empty list, 1/2/0 language values); (O) every single-property value of every kind against the same value without that property, both orders and forms: no panic; (P) ids on one host whose paths differ around percent-escaped reserved characters, prefixes, segments and 300-byte paths; distinct = law + case fingerprint; non-trivial = every case with a non-nil item",
 		Layers: func(tier string) []Layer {
 			return []Layer{
 				{Name: "reflexive-single", N: len(reflSingles), Exhaustive: true, Run: func(c *Ctx, idx int) {
@@ -325,6 +338,35 @@ func init() {
 									"values that differ in one property compare equal: "+desc, map[string]any{"case": desc, "x": clipS(vmodel.Canon(x, vmodel.Exact).String(), 300), "y": clipS(vmodel.Canon(y, vmodel.Exact).String(), 300)})
 							}
 						}
+					}
+				}},
+				{Name: "one-sided-property", N: len(singleExact), Exhaustive: true, Run: func(c *Ctx, idx int) {
+					// "comparison never panics and always terminates": a value that has one property (any property of any kind, in any
+					// shape) against the same value without it, both orders, pointer and value forms; the answer is not judged here
+					sc := singleExact[idx]
+					g := exactGen(c, true, idx)
+					full := g.BuildSingle(sc)
+					bare := vmodel.DeepCopy(full)
+					bv := reflect.ValueOf(bare).Elem().Field(sc.Field.Index)
+					bv.Set(reflect.Zero(bv.Type()))
+					// everything else the two agree on, so that a comparison gets as far as the one-sided property
+					for _, p := range []any{full, bare} {
+						reflect.ValueOf(p).Elem().FieldByName("Name").Set(reflect.ValueOf(vocab.NaturalLanguageValues{{Ref: vocab.NilLangRef, Value: vocab.Content("same")}}))
+					}
+					if sc.Field.Name == "Name" {
+						reflect.ValueOf(bare).Elem().FieldByName("Name").Set(reflect.Zero(vmodel.NlvT))
+					}
+					c.Distinct("one-sided|"+sc.String(), true)
+					for _, form := range []string{"ptr", "val"} {
+						var a, b vocab.Item = full.(vocab.Item), bare.(vocab.Item)
+						if form == "val" {
+							a, b = reflect.ValueOf(full).Elem().Interface().(vocab.Item), reflect.ValueOf(bare).Elem().Interface().(vocab.Item)
+						}
+						c.Count("one-sided-comparisons", 2)
+						c.Pending("one-sided " + sc.String())
+						c.Guard("ItemsEqual(with,without) "+sc.Kind.Name+"."+sc.Field.Term, func() { _ = vocab.ItemsEqual(a, b) })
+						c.Guard("ItemsEqual(without,with) "+sc.Kind.Name+"."+sc.Field.Term, func() { _ = vocab.ItemsEqual(b, a) })
+						c.Eval(2)
 					}
 				}},
 				{Name: "id-paths", N: len(pathPairs) * 2, Exhaustive: true, Run: func(c *Ctx, idx int) {
